@@ -853,15 +853,25 @@ func DispatchRule(w *World, r *Result, rule string) {
 	tagOf, _ := TagMap(w)
 	// tags tested by the two dispatchers and the type asserted in the arm
 	armType := map[string]string{}
+	armByType := map[string]bool{}
+	armT := map[string]types.Type{}
 	for _, fn := range w.Funcs("transpiler") {
 		for _, b := range fn.Blocks {
 			for _, ins := range b.Instrs {
 				ta, ok := ins.(*ssa.TypeAssert)
-				if !ok || ta.CommaOk {
+				if !ok {
+					continue
+				}
+				if ta.CommaOk {
+					// an arm of a type switch (or v, ok := x.(T)): the type itself selects the arm
+					if _, isNode := tagOf[namedName(ta.AssertedType)]; isNode {
+						armByType[namedName(ta.AssertedType)] = true
+					}
 					continue
 				}
 				for tag := range tagHolds(ta.X, b) {
 					armType[tag] = namedName(ta.AssertedType)
+					armT[tag] = ta.AssertedType
 				}
 			}
 		}
@@ -889,11 +899,23 @@ func DispatchRule(w *World, r *Result, rule string) {
 		tag := tagOf[n]
 		key := "dispatch:" + n
 		if t, ok := armType[tag]; ok {
+			implements := false
+			if iface, ok := armT[tag].Underlying().(*types.Interface); ok {
+				if obj := w.Pkgs["parser"].Types.Scope().Lookup(n); obj != nil && (types.Implements(obj.Type(), iface) || types.Implements(types.NewPointer(obj.Type()), iface)) {
+					implements = true
+				}
+			}
 			if t == n {
 				r.Ok(rule, key, "-", fmt.Sprintf("tag %q is dispatched to a handler asserting %s", tag, n))
+			} else if implements {
+				r.Ok(rule, key, "-", fmt.Sprintf("tag %q is dispatched to a handler asserting the interface %s, which %s implements", tag, t, n))
 			} else {
 				r.Bad(rule, key, "-", fmt.Sprintf("the arm for tag %q asserts %s but the tag belongs to %s", tag, t, n))
 			}
+			continue
+		}
+		if armByType[n] {
+			r.Ok(rule, key, "-", fmt.Sprintf("%s is dispatched by its type (type switch)", n))
 			continue
 		}
 		if why, ok := noHandlerOK[n]; ok {
